@@ -292,7 +292,14 @@ def _check_tape(spec):
     gtapes, proc = bfn(tapes, vecs, qp.gradients.param_shift, reduction=spec["reduction"])
     dev = qp.device("default.qubit", seed=spec["dev_seed"])
     results = dev.execute(gtapes) if len(gtapes) else ()
-    got = proc(results)
+    try:
+        got = proc(results)
+    except TypeError as e:
+        if fn == "jvp" and spec["reduction"] == "extend" and "0-d" in str(e):
+            # list.extend(<0-d array>): a tape whose JVP is a scalar cannot be 'extended'
+            raise Viol("unexpected-exception", f"TypeError: {e}", sig="TypeError@jvp.py:processing_fn",
+                       features={"fn": "batch_jvp", "reduction": "extend", "scalar": True}) from None
+        raise
     # independent bookkeeping + dense contraction
     expected, start = [], 0
     for tape, info in zip(tapes, infos):
